@@ -315,7 +315,7 @@ def _wrap(owner, name, post, label):
         INSTALLED[label] = 'absent'
         return
     try:
-        new = icontract.ensure(post, error=lambda: ContractBroken(label))(orig)
+        new = icontract.ensure(post, error=lambda: ContractBroken(label), enabled=True)(orig)
     except Exception as e:
         INSTALLED[label] = 'not installable: %r' % e
         return
